@@ -595,8 +595,23 @@ StuckRequest(c) ==
     /\ (req[c] \ {"rev"}) # {} /\ Offer(c) = NoRes
 NoStuckRequest == \A c \in AllCA : ~StuckRequest(c)
 
+\* KNOWN FINDING (known-findings.json, C02-cert-dropped-by-parent-not-re-requested):
+\* when a parent withdraws a child's certificate on its own (its resources
+\* shrank to nothing in common, or a suspended certificate no longer fitted
+\* the entitlement) and the offer is later again what the child believes it
+\* holds, the child never asks for a new certificate (keys.rs wants_update
+\* compares resources and validity only, not whether the parent still lists
+\* a certificate for the key): the key stays without a published
+\* certificate until validity times drift far enough apart.
+LostCert(c) ==
+    /\ exists[c] /\ c # Top /\ parent[c] \in AllCA /\ exists[parent[c]]
+    /\ cstate[c] = "active"
+    /\ \E x \in {"cur", "new"} :
+          rcv[c][x] # NoRes /\ iss[c][x] = NoRes /\ rcv[c][x] = Offer(c)
+NoLostCert == \A c \in AllCA : ~LostCert(c)
+
 NoOpenWork(c) ==
-    exists[c] /\ c # Top /\ ~StuckRequest(c) /\ parent[c] \in AllCA /\ exists[parent[c]]
+    exists[c] /\ c # Top /\ ~StuckRequest(c) /\ ~LostCert(c) /\ parent[c] \in AllCA /\ exists[parent[c]]
       /\ cstate[c] = "active"
     => /\ req[c] = {}
        \* (a roll waiting for the operator to activate the new key is at rest)
@@ -623,8 +638,8 @@ RPClean == RoaOverclaims = {} /\ CertOverclaims = {} /\ MissingPoints = {}
 ExpectedVrps ==
     {<<r, c>> \in Roa \X AllCA :
         exists[c] /\ Valid(c) /\ r \in routes[c] /\ Prefix(r) \in rcv[c]["cur"]}
-C01_Clean == Settled /\ NoDangling /\ NoStuckRequest => RPClean
-C01_Vrps == Settled /\ NoStuckRequest => RpVrps = ExpectedVrps
+C01_Clean == Settled /\ NoDangling /\ NoStuckRequest /\ NoLostCert => RPClean
+C01_Vrps == Settled /\ NoStuckRequest /\ NoLostCert => RpVrps = ExpectedVrps
 
 \* C02: in what a CA publishes, no child certificate claims more than the
 \* CA's own current certificate (evaluated whenever the CA's publication is
@@ -648,7 +663,7 @@ C02_IssuedWithinEntitlement == [][C02_IssuedWithinEntitlementStep]_vars
 C02_Converged ==
     Settled => \A c \in Sub :
         exists[c] /\ parent[c] \in AllCA /\ exists[parent[c]] /\ cstate[c] = "active"
-        /\ ~StuckRequest(c)
+        /\ ~StuckRequest(c) /\ ~LostCert(c)
         => (IF Offer(c) = NoRes THEN rc[c] = "none"
             ELSE rc[c] \in {"active", "roll_new"} /\ rcv[c]["cur"] = Offer(c))
 
